@@ -43,6 +43,10 @@ def support(kind, s, dz):
         return {'pieces': [{'k': 'n1', 'c': list(c), 'r': 0.75}], 'centre': list(c)}
     if kind == 'ninf':
         return {'pieces': [{'k': 'ninf', 'c': list(c), 'r': 0.5}], 'centre': list(c)}
+    if kind == 'ninf*':     # scaled atoms: c*norm(z - ctr, inf) <= c*r with c < 1 in even, c > 1 in odd scenarios
+        return {'pieces': [{'k': 'ninf', 'c': list(c), 'r': 0.625, 'mult': 0.25 if s % 2 == 0 else 4.0}], 'centre': list(c)}
+    if kind == 'n1*':
+        return {'pieces': [{'k': 'n1', 'c': list(c), 'r': 0.75, 'mult': -2.0 if s % 2 == 0 else 0.5}], 'centre': list(c)}
     if kind == 'tri':
         A = [[1.0] * dz] + [[-1.0 if i == j else 0.0 for j in range(dz)] for i in range(dz)]
         b = [sum(c) + 1.0] + [-(a - 0.5) for a in c]
@@ -142,7 +146,7 @@ LABELS = {1: [['only']], 2: [[0, 1], ['b', 'a']], 3: [[0, 1, 2], ['c', 'a', 'b']
 
 def make(S=2, dz=1, pal=0, supp='box', wass=False, ex='none', pr='free', okind='minsup_E', ny=1, ypart=None, mask=None,
          xpart=None, rows='basic', att=None, labels=0, supp_decl='each', ex_decl='auto', ydecl='tail', style='A',
-         adapt_style='entry', pwoff=None):
+         adapt_style='entry', pwoff=None, ysplit=False, zsign=None):
     P = PALETTES[pal]
     d = dz + (1 if wass else 0)
     pad = [0.0] * (d - dz)
@@ -232,6 +236,8 @@ def make(S=2, dz=1, pal=0, supp='box', wass=False, ex='none', pr='free', okind='
                {'ax': [-1.0, 0.0], 'c0': -0.125}]
         if ny:
             pcs[1]['by'] = [-0.5] + [0.0] * (ny - 1)
+            # a piece with an adaptive decision but no explicit random variable (robust only through the rule)
+            pcs.append({'ax': [0.0, -1.0], 'by': [0.25] + [0.0] * (ny - 1), 'c0': 0.25})
         if rows.endswith('>='):
             from .ro_specs import neg_piece
             pcs = [neg_piece(pc) for pc in pcs]
@@ -267,6 +273,20 @@ def make(S=2, dz=1, pal=0, supp='box', wass=False, ex='none', pr='free', okind='
         from .ro_specs import neg_piece
         pieces = [neg_piece(p) for p in pieces]
     pieces = [dict(p, style=style) for p in pieces]
+    if zsign:
+        zs = list(zsign)[:dz] + [1.0] * (d - dz)
+
+        def mirror(pc):
+            out = dict(pc)
+            if 'cz' in pc:
+                out['cz'] = [a * sg for a, sg in zip(pc['cz'], zs)]
+            if 'Az' in pc:
+                out['Az'] = [[a * sg for a in r] for r, sg in zip(pc['Az'], zs)]
+            if 'pieces' in pc:
+                out['pieces'] = [mirror(q_) for q_ in pc['pieces']]
+            return out
+        R = [mirror(r) for r in R]
+        pieces = [mirror(pc) for pc in pieces]
     spec['obj'] = {'kind': kind, 'E': form.startswith('E'), 'pieces': pieces}
     if kind in ('min', 'max'):
         for r in R:
@@ -302,6 +322,11 @@ def make(S=2, dz=1, pal=0, supp='box', wass=False, ex='none', pr='free', okind='
     spec['tag'] = 'S%d|dz%d%s|%s|%s|%s|%s|ny%d|yp%s|m%s|%s|%s' % (
         S, dz, 'w' if wass else '', supp, ex, pr, okind, ny, ''.join(str(len(b)) for b in spec['ypart']),
         ''.join(str(v) for r in (mask or []) for v in r), rows, att or 'dflt')
+    if zsign:
+        spec['tag'] += '|z%s' % ''.join('+' if sg > 0 else '-' for sg in zsign[:dz])
+    if ysplit and ny:
+        spec['ysplit'] = True
+        spec['tag'] += '|ysplit'
     if pwoff:
         spec['pwoff'] = list(pwoff)
         spec['tag'] += '|off:%s.%s.%s' % tuple(pwoff)
@@ -317,7 +342,7 @@ def gen_specs(tier, seed):
                 yield sp
 
 
-SUPPS = ['single', 'box', 'box0', 'abs', 'n1', 'ninf', 'tri']
+SUPPS = ['single', 'box', 'box0', 'abs', 'n1', 'ninf', 'tri', 'ninf*', 'n1*']
 EXPTS = ['none', 'allbox', 'alleq', 'alln1', 'allabs', 'sub0', 'sublast', 'overlap', 'noncontig']
 PROBS = ['free', 'fixed', 'box', 'ninf', 'n1']
 DECLS = ['each', 'iloc', 'loc']
@@ -361,6 +386,16 @@ def _gen(pal, thorough):
             for supp, ex in (('box', 'allbox'), ('n1', 'none')):
                 yield make(S=S, dz=2, pal=pal, supp=supp, ex=ex, pr='fixed', ny=2,
                            mask=[list(bits[:2]), list(bits[2:])], adapt_style='whole' if all(bits) else 'entry')
+    # ny = 2 declared as two SEPARATE adaptive variables (own coefficient blocks in the rule vector), every partition x masks
+    for S in (2, 3):
+        for part in set_partitions(range(S)):
+            part = sorted(sorted(b) for b in part)
+            for m0, m1 in (([1, 1], [1, 1]), ([1, 0], [1, 1]), ([1, 1], [0, 1]), ([0, 1], [1, 0]), ([0, 0], [1, 1])):
+                for supp, ex, pr in (('box', 'allbox', 'fixed'), ('n1', 'sub0', 'box')):
+                    for ydecl in ('tail', 'all'):
+                        yield make(S=S, dz=2, pal=pal, supp=supp, ex=ex, pr=pr, ny=2, ypart=part, mask=[m0, m1], ydecl=ydecl,
+                                   ysplit=True, adapt_style='whole' if (m0 == [1, 1] and ydecl == 'all') else 'entry',
+                                   okind='minsup_E' if ydecl == 'tail' else 'minsup_Ebi')
     # event-wise static x as well
     for S in (2, 3):
         for xpart in set_partitions(range(S)):
@@ -435,6 +470,13 @@ def _gen(pal, thorough):
                     if rows[0] == 'R' and off[2] == 'out':
                         continue
                     yield make(S=S, dz=2, pal=pal, supp=supp, ex=ex, pr=pr, rows=rows, ny=1, pwoff=off)
+    # Q7: mirrored dependence on the random components (worst cases at the opposite faces of every support kind)
+    for S in (1, 2):
+        for supp in SUPPS:
+            for ex, pr in (('none', 'free'), ('allbox', 'fixed'), ('sub0', 'box')):
+                for zsign in ([-1.0, -1.0], [1.0, -1.0], [-1.0, 1.0]):
+                    for okind, rows in (('minsup_E', 'basic+E'), ('minsup_Ebi', 'robust_bi'), ('minsup_Epw', 'Epw<=')):
+                        yield make(S=S, dz=2, pal=pal, supp=supp, ex=ex, pr=pr, okind=okind, rows=rows, ny=1, zsign=zsign)
     # global support declaration
     for S in (2, 3):
         for supp in SUPPS:
